@@ -80,6 +80,87 @@ Proof.
     cbn [v_name]. apply orb_false_elim in CONF. tauto.
 Qed.
 
+
+Lemma NoDup_app_one {A} (l : list A) (x : A) : NoDup l -> ~ In x l -> NoDup (l ++ [x]).
+Proof.
+  intros ND NI. induction l as [|y l IH]; cbn [app]; [constructor; [intros []|constructor]|].
+  inversion ND as [|? ? NIy NDl]; subst. constructor.
+  - intros I. apply in_app_or in I. destruct I as [I|[E|[]]]; [contradiction|]. apply NI. left. symmetry. exact E.
+  - apply IH; [exact NDl|]. intros I. apply NI. right. exact I.
+Qed.
+
+(* ---- numbering never makes two variables share a name (the invariant D2 broke) ---- *)
+
+Lemma has_var_false_notin vs name : has_var vs name = false -> ~ In name (map v_name vs).
+Proof. intros H I. apply has_var_In in I. rewrite I in H. discriminate. Qed.
+
+Lemma rename_first_names_nodup : forall vs a b,
+  NoDup (map v_name vs) -> ~ In b (map v_name vs) -> NoDup (map v_name (rename_first vs a b)).
+Proof.
+  induction vs as [|v vs IH]; intros a b ND NI; [constructor|].
+  cbn [rename_first]. inversion ND as [|x l NIv NDr]; subst.
+  destruct (String.eqb (v_name v) a).
+  - cbn [map v_name]. constructor; [|exact NDr]. intros I. apply NI. right. exact I.
+  - cbn [map]. constructor.
+    + intros I.
+      assert (In (v_name v) (b :: map v_name vs)) as I2.
+      { clear - I. induction vs as [|w vs IH]; [destruct I|]. cbn [rename_first] in I.
+        destruct (String.eqb (v_name w) a).
+        - cbn [map v_name] in I. destruct I as [E|I]; [left; exact E|right; right; exact I].
+        - cbn [map] in I. destruct I as [E|I]; [right; left; exact E|].
+          destruct (IH I) as [E|I2]; [left; exact E|right; right; exact I2]. }
+      destruct I2 as [E|I2]; [apply NI; left; symmetry; exact E|contradiction].
+    + apply IH; [exact NDr|]. intros I. apply NI. right. exact I.
+Qed.
+
+Theorem C12_numbering_keeps_distinct sc s n sc' :
+  NoDup (names sc) ->
+  resolve_var_name_conflict sc s = Ok (n, sc') ->
+  NoDup (n :: names sc').
+Proof.
+  unfold names, resolve_var_name_conflict. intros ND.
+  destruct (first_free _ (sc_vars sc) s 1) as [k|] eqn:FF; [|discriminate].
+  destruct (first_free_spec _ _ _ _ _ FF) as [FREE GE].
+  destruct k as [|[|k]]; [lia| |].
+  - (* the bare stem becomes <stem>1, the new variable gets the first free number from 2 *)
+    set (vs1 := if has_var (sc_vars sc) s then rename_first (sc_vars sc) s (s ++ "1") else sc_vars sc).
+    assert (ND1 : NoDup (map v_name vs1)).
+    { unfold vs1. destruct (has_var (sc_vars sc) s); [|exact ND].
+      apply rename_first_names_nodup; [exact ND|]. apply has_var_false_notin. exact FREE. }
+    destruct (first_free _ vs1 s 2) as [m|] eqn:F2; [|discriminate].
+    destruct (first_free_spec _ _ _ _ _ F2) as [FREE2 _].
+    intros E. inversion E; subst. cbn [sc_vars]. constructor; [|exact ND1].
+    apply has_var_false_notin. exact FREE2.
+  - intros E. inversion E; subst. constructor; [|exact ND].
+    apply has_var_false_notin. exact FREE.
+Qed.
+
+(* AddVar keeps the names of a scope pairwise distinct unless an import-driven rename
+   (resolveImportVarConflicts: q -> qMoqParam) lands on a name that is already taken --
+   the residual family names_distinct/names_qualifiers, decided per input by WellScoped. *)
+Theorem C12_add_var_keeps_distinct cfg r sc name t suffix r' sc' idx :
+  add_var cfg r sc name t suffix = Ok (r', sc', idx) ->
+  (forall r1 imps, populate cfg r (refs t) [] = Ok (r1, imps) ->
+     NoDup (map v_name (rename_for_imports (sc_vars sc) (map (imp_qualifier r1) imps)))) ->
+  NoDup (names sc').
+Proof.
+  unfold add_var, names. destruct (populate cfg r (refs t) []) as [[r1 imps]| | | |]; try discriminate.
+  cbn [bind]. destruct (_ && _); [discriminate|]. intros E H. specialize (H r1 imps eq_refl).
+  set (vs1 := rename_for_imports (sc_vars sc) (map (imp_qualifier r1) imps)) in *.
+  set (n1 := match search_import r1 (var_name name t suffix) with Some _ => _ | None => _ end) in *.
+  destruct (has_var vs1 n1 || str_mem n1 (sc_conflicted sc)) eqn:CONF.
+  - destruct (resolve_var_name_conflict (mkScope vs1 (sc_conflicted sc)) n1) as [[n2 sc2]| | | |] eqn:R;
+      try discriminate.
+    cbn [bind] in E. inversion E; subst. cbn [sc_vars].
+    pose proof (C12_numbering_keeps_distinct (mkScope vs1 (sc_conflicted sc)) n1 n2 sc2 H R) as ND.
+    unfold names in ND. rewrite map_app. cbn [map v_name].
+    apply NoDup_cons_iff in ND. destruct ND as [NI ND].
+    apply NoDup_app_one; assumption.
+  - cbn [bind] in E. inversion E; subst. cbn [sc_vars]. rewrite map_app. cbn [map v_name].
+    apply orb_false_elim in CONF. destruct CONF as [HV _].
+    apply NoDup_app_one; [exact H|]. apply has_var_false_notin. exact HV.
+Qed.
+
 (* ---- what remains false of the code, and what the repairs changed: evaluated witnesses ---- *)
 
 Definition mk_cfg := mkRcfg "example.com/x" [].
